@@ -30,7 +30,7 @@ def standard_batches(rng, tier, quick_sizes=(4000, 3000, 3000, 3), thorough_size
            + [case(b'a = ' + t) for t in ftlgen.exhaustive(ftlgen.SMALL, exlen - 1)]
            + [case(b'a = {' + t) for t in ftlgen.exhaustive(ftlgen.SMALL, exlen - 1)])
     yield ('random-tokens', [case(t) for t in ftlgen.token_strings(rng, nrand, 12)])
-    small = [b for _, b in fx if len(b) < 3000]
+    small = [b for _, b in fx if len(b) < 1200]
     muts = []
     for _ in range(nmut):
         base = rng.choice(small) if rng.random() < 0.5 else ftlgen.gen_resource(rng)
